@@ -143,7 +143,7 @@ def _sep_guard(o, p):
     need(np.abs(c) > 0.05)          # the formula switches branch at a.b = 0 (same function, but keep clear)
 
 
-op('sep', VV_S, lambda o, p: o[0].sep(o[1]), None, _sep_guard)
+op('sep', VV_S, lambda o, p: o[0].sep(o[1]), lambda a, p, ts: ['sep', a[0], a[1]], _sep_guard)
 op('emul', VV_V, lambda o, p: o[0].element_mul(o[1]), lambda a, p, ts: ['emul', a[0], a[1]])
 op('ediv', VV_V, lambda o, p: o[0].element_div(o[1]), lambda a, p, ts: ['ediv', a[0], a[1]],
    lambda o, p: need(np.abs(vals(o[1])) > 0.2))
@@ -189,7 +189,8 @@ def _twovec_guard(o, p):
     need(np.sqrt(np.sum(cr ** 2, axis=-1)) > 0.3 * vnorm(o[0]) * vnorm(o[1]))
 
 
-op('twovec', [(('V3', 'V3'), 'R3')], lambda o, p: Matrix3.twovec(o[0], int(p['a1']), o[1], int(p['a2'])), None, _twovec_guard)
+op('twovec', [(('V3', 'V3'), 'R3')], lambda o, p: Matrix3.twovec(o[0], int(p['a1']), o[1], int(p['a2'])),
+   lambda a, p, ts: ['twovec', int(p['a1']), int(p['a2']), a[0], a[1]], _twovec_guard)
 
 # quaternions
 op('qmul', [(('Q', 'Q'), 'Q')], lambda o, p: o[0] * o[1], lambda a, p, ts: ['qmul', a[0], a[1]])
@@ -199,11 +200,9 @@ op('qrecip', [(('Q',), 'Q')], lambda o, p: o[0].reciprocal(), lambda a, p, ts: [
 op('from_parts', [(('S', 'V3'), 'Q')], lambda o, p: Quaternion.from_parts(o[0], o[1]), lambda a, p, ts: ['cat', a[0], a[1]])
 op('to_parts0', [(('Q',), 'S')], lambda o, p: o[0].to_parts()[0], lambda a, p, ts: ['comp', 0, a[0]])
 op('to_parts1', [(('Q',), 'V3')], lambda o, p: o[0].to_parts()[1], lambda a, p, ts: ['slice', 1, 4, a[0]])
-op('to_matrix3', [(('Q',), 'R3')], lambda o, p: o[0].to_matrix3(), None, lambda o, p: need(vnorm(o[0]) > 0.3))
+op('to_matrix3', [(('Q',), 'R3')], lambda o, p: o[0].to_matrix3(), lambda a, p, ts: ['tomatrix3', a[0]], lambda o, p: need(vnorm(o[0]) > 0.3))
 op('from_rotation', [(('S', 'V3'), 'Q')], lambda o, p: Quaternion.from_rotation(o[0], o[1]),
-   # quaternion.py:130-146: from_parts(cos(a/2), (sin(a/2)/|v|) * v)
-   lambda a, p, ts: ['cat', ['u', 'cos', ['nscale', bits(0.5), a[0]]],
-                     ['smul', a[1], ['sdiv', ['u', 'sin', ['nscale', bits(0.5), a[0]]], ['norm', a[1]]]]],
+   lambda a, p, ts: ['fromrotation', a[0], a[1]],
    lambda o, p: need(vnorm(o[1]) > 0.3))
 
 
@@ -213,10 +212,9 @@ def _torot_guard(o, p):
 
 
 op('to_rotation0', [(('Q',), 'S')], lambda o, p: o[0].to_rotation()[0],
-   # quaternion.py:149-157: 2 * |vec|.arctan2(scalar)
-   lambda a, p, ts: ['nscale', bits(2.0), ['atan2', ['norm', ['slice', 1, 4, a[0]]], ['comp', 0, a[0]]]], _torot_guard)
+   lambda a, p, ts: ['torotation0', a[0]], _torot_guard)
 op('to_rotation1', [(('Q',), 'V3')], lambda o, p: o[0].to_rotation()[1],
-   lambda a, p, ts: ['sdiv', ['slice', 1, 4, a[0]], ['norm', ['slice', 1, 4, a[0]]]], _torot_guard)
+   lambda a, p, ts: ['torotation1', a[0]], _torot_guard)
 
 STRUCT = ('sum', 'mean', 'getitem', 'reshape', 'swap_axes', 'stack', 'flatten', 'bcast')
 
